@@ -15,7 +15,7 @@ from .. import engine, common
 ID = "C04"
 FLAVS = ["full", "bare", "notsync"]
 FORMS = ["inline", "where", "impl", "split", "dup", "relaxed", "implrelaxed"]   # the last two: `?Sized` next to the bounds (lifts a requirement, adds none)
-MOCKS = ["none", "mockall", "mockall_false", "api_only", "unimock", "unimock_false", "mockall_unimock_false", "api_mockall_false"]
+MOCKS = ["none", "mockall", "mockall_false", "api_only", "unimock", "unimock_false", "mockall_unimock_false", "api_mockall_false", "unimock_export_noapi"]
 # two of the three bounds are instantiations of ONE generic trait: a bound is its whole path, generic arguments included
 BN = ["B0", "G<u8>", "G<u16>"]
 # second naming scheme: two DIFFERENT traits whose paths end in the same segment (a bound is its whole path, not its last segment)
@@ -80,14 +80,16 @@ def attr(mock, maybe_send=False):
     a = {"none": "", "mockall": ", mockall", "mockall_false": ", mockall = false", "api_only": ", mock_api = TrMock",
          "unimock": ", mock_api = TrMock, unimock", "unimock_false": ", mock_api = TrMock, unimock = false",
          # one framework switched off explicitly must not cancel the other
-         "mockall_unimock_false": ", unimock = false, mockall", "api_mockall_false": ", mock_api = TrMock, mockall = false"}[mock]
+         "mockall_unimock_false": ", unimock = false, mockall", "api_mockall_false": ", mock_api = TrMock, mockall = false",
+         # unimock switched on and mocks exported, but no mock API named: no mock support is generated, so every qualifying type implements the trait
+         "unimock_export_noapi": ", unimock, export"}[mock]
     return "#[::entrait::entrait(pub Tr%s%s)]" % (a, ", ?Send" if maybe_send else "")
 
 
 def enumerate_states(tier):
     states = []
     for mask, form, byval, mock, feature, asy in itertools.product(range(8), FORMS, (False, True), MOCKS, (False, True), (False, True, "ms")):
-        if mock == "unimock" and not feature:
+        if mock in ("unimock", "unimock_export_noapi") and not feature:
             continue  # the unimock derive needs the crate feature
         if byval and form in ("relaxed", "implrelaxed"):
             continue  # an unsized dependency cannot be taken by value
